@@ -175,6 +175,9 @@ def symbolic_run(scn: Scenario, **cfg) -> SymRun:
     except BaseException as exc:  # noqa: BLE001
         armed[0] = False   # the repeating timer must not fire again between here and the disarm below
         escaped = f"{type(exc).__name__}: {exc}"
+        if "exceeded the harness watchdog" in escaped and not escaped.startswith("TimeoutError"):
+            # the alarm went off inside a z3 callback: ctypes re-raises it wrapped (ArgumentError: argument 1: TimeoutError: …)
+            escaped = "TimeoutError: symbolic run exceeded the harness watchdog (raised inside a native callback)"
     finally:
         armed[0] = False
         signal.setitimer(signal.ITIMER_REAL, 0)
